@@ -4,7 +4,7 @@ the definition regenerated from the tree under test is the model's definition, b
 set_option linter.unusedSectionVars false
 namespace GeomV.C04
 open GeomV
-variable {α : Type}
+variable {α : Type} [LT α] [DecidableLT α]
 
 theorem C04_tie_Point_Len (p : Pt α) : lenG (.point p) = .ok (Gen.pointLen p) := rfl
 theorem C04_tie_MultiPoint_Len (ps : List (Pt α)) : lenG (.multiPoint ps) = .ok (Gen.multiPointLen ps) := rfl
